@@ -135,7 +135,7 @@ func Run(r *hx.Run, replay []hx.Case) {
 		}
 		cases, ids = dialx.FromReplay(r, rest)
 	} else {
-		cases = Table(r.Tier == "thorough")
+		cases = append(Table(r.Tier == "thorough"), dialx.FallbackTCPCases()...)
 		for range cases {
 			ids = append(ids, r.NewID())
 		}
